@@ -47,6 +47,7 @@ def mixture(r, comp=None, delta_mode=None, peneloux=None, nmin=1, nmax=6):
     n = len(comp)
     delta_mode = delta_mode or r.choice(['zero', 'const', 'groups'])
     kw = {}
+    groups_array = False
     if delta_mode == 'const':
         d = np.zeros((n, n))
         for i in range(n):
@@ -55,6 +56,14 @@ def mixture(r, comp=None, delta_mode=None, peneloux=None, nmin=1, nmax=6):
         kw['delta'] = d
     elif delta_mode == 'groups':
         kw['delta_groups'] = {}
+        # 40 %: the group vectors are handed over as a user ARRAY (the other constructor path); the array holds
+        # the database values, so both paths describe the same mixture.  Only when every compound has groups
+        # (a zero row is normalised to 0/0 by the constructor — a recorded C18 finding, not this property's matter)
+        if r.random() < 0.4:
+            g = np.array(dbm.FluidMixture(list(comp), delta_groups={}).delta_groups, dtype=float)
+            if g.shape == (n, 15) and np.all(g.sum(axis=1) > 0):
+                kw['delta_groups'] = g
+                groups_array = True
     peneloux = r.random() < 0.3 if peneloux is None else peneloux
     if peneloux:
         from tamoc import chemical_properties as cp
@@ -77,7 +86,7 @@ def mixture(r, comp=None, delta_mode=None, peneloux=None, nmin=1, nmax=6):
         kw['user_data'] = ud
     fm = dbm.FluidMixture(list(comp), **kw)
     return fm, {'composition': list(comp), 'delta_mode': delta_mode, 'peneloux': bool(peneloux),
-                'peneloux_partial': peneloux == 'partial'}
+                'peneloux_partial': peneloux == 'partial', 'groups_array': groups_array}
 
 
 def eos_args(fm):
